@@ -47,6 +47,39 @@ def run(ck):
             last = replay_of(ck, x, extra)
         if len(ck.cov["samples"]) < 10 and m.cls not in [s.get("mutation_class") for s in ck.cov["samples"]]:
             ck.cov["samples"].append({"mutation_class": m.cls, "mutation": m.desc, "cmode": c.cm, "hmode": c.hm, "T": c.T, "n": c.n, "decrypt": x["dec"][:40], "verify": x["ver"]})
+    # a long-lived process: the authentic file is verified / decrypted, THEN same-length altered copies with the same key (and the
+    # authentic file again in between): anything remembered from the successful run must not let an altered copy through
+    r = ck.rng
+    hl_, hmeta = [], {}
+    for j, (c, f) in enumerate(sorted(files, key=lambda cf: len(cf[1]))[:10 if big else 5]):
+        tm = 48 + 20 * c.T
+        ops, exp = [], []
+        def add(kind, data, ok):
+            ops.append([kind, str(c.T), c.key.hex(), data.hex()])
+            exp.append(ok)
+        add("ver", f, True)
+        if j % 2:
+            add("dec", f, True)
+        for pos in sorted(set([74 if 74 < len(f) else len(f) - 1, tm, len(f) - 1, len(f) - 17, r.randrange(tm, len(f)), r.randrange(48, tm)])):
+            g = bytearray(f)
+            g[pos] ^= 1 << r.randrange(8)
+            add(r.choice(["ver", "dec"]), bytes(g), False)
+            if r.random() < 0.3:
+                add("ver", f, True)
+        hl_.append("lq%d hist %s" % (j, ";".join(",".join(o) for o in ops)))
+        hmeta["lq%d" % j] = (ops, exp, c)
+    ho = wv.run_lines([exe], hl_, env=env)
+    for cid, (ops, exp, c) in hmeta.items():
+        parts = ho.get(cid, "(no output)").split(" ; ")
+        for q, ok in enumerate(exp):
+            ck.cov["evaluations"] += 1
+            g = split_impl(parts[q])[0] if q < len(parts) else "(missing)"
+            if (ok and not g.startswith("OK")) or (not ok and not g.startswith("FAIL")):
+                ck.violation("operation %d of a sequence in one process (%s of %s): %s" % (q, ops[q][0], "the authentic file" if ok else "an ALTERED same-length copy after the authentic file was accepted", g[:30]),
+                             {"class": None, "history": [" ".join(o)[:1500] for o in ops], "position": q, "implementation": g[:300], "expected": "OK" if ok else "FAIL", "driver_flags": ck.impl_flags,
+                              "replay": "echo 'x hist <ops joined by ; with , between fields>' | harness/drv.cpp built with the flags above against /repo"})
+                break
+    dist["sequence-in-one-process/altered-copy-after-acceptance"] = len(hl_)
     ck.cov["distinct_nontrivial"] = len(distinct)
     ck.cov["files"] = len(files)
     ck.cov["disagreements_model_vs_impl"] = corr
